@@ -66,14 +66,15 @@ def hedge_interpret(hedge: str, return_type="interval") -> I | Pbox:
     # parse the numeric value denoted as x
     x = [s for s in splitted_list if is_number(s)][0]
 
+    # parse the decimal place 'd' of the last written digit from the numeral itself
+    # (sign, values below one, trailing zeros and exponent notation are handled by Decimal)
+    d = decipher_d(x)
+
     # decipher the number is a float or an integer or sci-notation
-    if "." in x:
+    if ("." in x) or ("e" in x.lower()):
         x = float(x)
     else:
         x = int(x)
-
-    # parse the decimal place 'd'
-    d = decipher_d(x)
 
     # parse the keyword
     try:
@@ -246,11 +247,8 @@ def decipher_zrf(num, d):
 
 
 def decipher_d(x):
-    """parse the decimal place d from a number"""
-    d = count_sigfigs(str(x))
-    bias_num = count_sig_digits_bias(x)
-    d = d - bias_num
-    return d
+    """parse the decimal place d of the last written digit from a number or its numeral string"""
+    return -Decimal(str(x)).as_tuple().exponent
 
 
 def is_number(n):
